@@ -28,7 +28,7 @@ META = {
                    '(structure and object identity) of target, spec and caller scope are compared before/after every thunk.',
     'bounds': {
         'quick': {'history length': 3, 'thunk pool': 14, 'toggles': 7, 'data': 'unbounded symbolic ints, lists <= 3'},
-        'thorough': {'history length': '2 (every thunk pair x every toggle), 3 (10 leading pairs x every third thunk x 5 x 5 toggles; 14 concrete families checked against fresh-interpreter constants), 4 (12 families)'},
+        'thorough': {'history length': '2 (every thunk pair x every toggle), 3 (8 leading pairs x 6 third thunks x 3 x 3 toggles; 4 concrete families with a free second call, 80 with a repeated one, checked against fresh-interpreter constants), 4 (12 families)'},
     },
     'stubs': ['S3 glom_debug=True', 'S4 state reset (the definition of fresh state for symbolic thunks)'],
     'outside_claim': ['>10000 distinct path strings is represented by a directly constructed over-full cache', 'interleaving with '
@@ -358,21 +358,22 @@ def obligations(tier):
     for p0 in p0s:
         for g0 in g0s:
             for rep in ((True,) if q else (True, False)):
-                if not rep and (p0 not in (0, 1, 4, 8, 15, 18, 19) or g0 not in (4, 7)):
+                if not rep and (p0 not in (0, 4, 15, 19) or g0 != 7):
                     continue             # sized for the thorough tier: about 600 paths per obligation, each path several glom calls from fresh state
                 fx = {'p0': p0, 'g0': g0}
                 pre = '0 <= p2 < %d and ' % NTHUNK + ('(g1 == 0 or g1 == 1 or g1 == 4 or g1 == 7)' if (q or not rep) else '0 <= g1 < %d' % NTOGGLE)
                 if rep:
                     fx['p1'] = p0
                 else:
-                    pre += ' and (p1 == 0 or p1 == 1 or p1 == 4 or p1 == 8 or p1 == 15 or p1 == 19)'
+                    pre += ' and (p1 == 1 or p1 == 8 or p1 == 19) and (p2 == 0 or p2 == 4 or p2 == 8 or p2 == 12 or p2 == 15 or p2 == 18)'
                 obs.append(Ob(history_concrete, fixed=fx, pre=pre, name='history_concrete_%d_g%d_%s' % (p0, g0, 'rep' if rep else 'any'),
                               timeout=200 if rep else 1800, path_timeout=60))
     if not q:
-        g5 = '(g0 == 0 or g0 == 1 or g0 == 4 or g0 == 6 or g0 == 7) and (g1 == 0 or g1 == 1 or g1 == 4 or g1 == 6 or g1 == 7)'
-        for p0 in (0, 4, 8, 15, 19):
+        g3 = '(g0 == 1 or g0 == 4 or g0 == 7) and (g1 == 0 or g1 == 6 or g1 == 7)'
+        p6 = '(p2 == 0 or p2 == 4 or p2 == 8 or p2 == 12 or p2 == 15 or p2 == 19)'
+        for p0 in (0, 4, 15, 19):
             for p1 in (1, 4):
-                obs.append(Ob(history3, fixed={'p0': p0, 'p1': p1}, pre='0 <= p2 < %d and %s' % (NTHUNK, g5),
+                obs.append(Ob(history3, fixed={'p0': p0, 'p1': p1}, pre=p6 + ' and ' + g3,
                               name='history3_%d_%d' % (p0, p1), timeout=1800))
         for p0 in (0, 1, 4, 8):
             for g0 in (1, 4, 6):
